@@ -21,7 +21,10 @@
 package main
 
 import (
+	"encoding/json"
 	"fmt"
+	"os"
+	"path/filepath"
 	"runtime"
 	"runtime/debug"
 	"sort"
@@ -65,7 +68,9 @@ func main() {
 	debug.SetMemoryLimit(8 << 30)
 	var parts []*part
 	parts = append(parts, explicitStateCases(run))
-	// parts = append(parts, endToEndCases(run))   // <- scheduler engine hooks in here
+	if p := endToEndCases(run); p != nil { // hashed calls through the real manager, explored by checks/c15 just before
+		parts = append(parts, p)
+	}
 	finish(run, parts)
 }
 
@@ -147,4 +152,36 @@ func parallelConfigs(n int, deadline time.Time, fn func(i int)) {
 		}()
 	}
 	wg.Wait()
+}
+
+// endToEndCases folds in what the end-to-end part explored: hashed calls through
+// the real endpoint manager against scripted servers (the hashed histories of
+// checks/c15, run by run.sh as property C14 immediately before this program);
+// its violations were reported by that program itself.
+func endToEndCases(run *common.Run) *part {
+	b, err := os.ReadFile(filepath.Join(common.Root(), "evidence", "C14.e2e.json"))
+	if err != nil {
+		return nil
+	}
+	var ev struct {
+		Tier     string         `json:"tier"`
+		Coverage map[string]any `json:"coverage"`
+		Assume   []string       `json:"assumptions"`
+	}
+	if json.Unmarshal(b, &ev) != nil || ev.Tier != run.Tier {
+		return nil
+	}
+	num := func(k string) int64 {
+		f, _ := ev.Coverage[k].(float64)
+		return int64(f)
+	}
+	ex, _ := ev.Coverage["exhaustive"].(bool)
+	p := &part{Name: "end-to-end hashed calls (real endpoint manager, scheduler engine)"}
+	p.States, p.Transitions, p.Traces, p.Evaluations = num("states"), num("transitions"), num("executions"), num("executions")
+	p.Exhaustive = ex
+	p.Rule = "event histories with consistent-hash and mod-hash calls (loop and static weights) replayed on the real endpoint manager; every hashed call must go where selectors built directly over the endpoints in rotation send it"
+	if s, ok := ev.Coverage["samples"].([]any); ok {
+		p.Samples = s
+	}
+	return p
 }
